@@ -1276,7 +1276,7 @@ Theorem function_roundtrip : forall t name args, wf_ty t -> depth t < depth_fuel
   forall p R f, fn_fuel t args <= f ->
   exists v p', interp g f (GRef "GlobalFunction") {| pk := p; rest := render (fn_toks t name args) R |}
                = Match [([], v)] {| pk := p'; rest := R |}
-               /\ b_decl depth_fuel v = Ok (DFun {| f_tmpl := None; f_name := name; f_ret := RSingle t; f_args := map mk_arg args |}).
+               /\ forall k, b_decl (S k) v = Ok (DFun {| f_tmpl := None; f_name := name; f_ret := RSingle t; f_args := map mk_arg args |}).
 Proof.
   intros t name args Hw Hd [h [rest' [Eh [Hwh [Hkp Hkt]]]]] Hn Ha p R f Hf. unfold fn_fuel in Hf.
   assert (X : exists f', f = 20 + f' /\ fuel_of t <= f' /\ args_fuel args <= f') by (exists (f - 20); lia).
@@ -1313,6 +1313,6 @@ Proof.
   destruct (lit1_at (Sn 16 f') p5 ";"%char R eq_refl) as [p6 E6]. cbn [Sn] in E6. change (sp [";"%char] R) with (sp semi R) in E6. rewrite E6, seq_nil. cbn [app].
   eexists. exists p6. split; [reflexivity|].
   (* the node constructors *)
-  rewrite string_chars. unfold depth_fuel. apply b_decl_function; [|exact B4].
+  intros k. rewrite string_chars. apply b_decl_function; [|exact B4].
   apply b_ret_single. unfold b_type. apply (ty_rebuilt depth_fuel t Hd Hw).
 Qed.
